@@ -264,7 +264,12 @@ class Area:
         self.exc = dict(common.EXCEPTIONS)
 
     def ty(self, s):
-        return parse_ty(s, self.classes, self.opaque)
+        return parse_ty(s, {k: v for k, v in self.classes.items() if not v.get("opaque")}, self.opaque)
+
+    def self_ty(self, cls):
+        """the type of `self` in the methods of a spec'd class: its structure, or the opaque model type that stands for it"""
+        c = self.classes[cls]
+        return T("Opaque", c["opaque"]) if c.get("opaque") else T("Class", cls)
 
     def lean_ty(self, t):
         k = t.k
@@ -294,6 +299,8 @@ class Area:
             return t.a[0]
         if k == "Opaque":
             return self.opaque[t.a[0]]["lean"]
+        if k == "Frac":
+            return "Int"
         raise Fail("no Lean type for %r" % t)
 
     def eq_of(self, t, fx=None):
@@ -361,6 +368,8 @@ class FnTr(Tr):
                 return v.text, 1
             if v.ty == NAT:
                 return "(%s : Int)" % v.text, 1
+            if v.ty.k == "Frac":
+                return v.text, v.ty.a[0]
             self.fail("expected a number, found %r: %s" % (v.ty, ast.unparse(e)), e)
         return super().num(e)
 
@@ -598,6 +607,9 @@ class Fx:
     def numeric(self, e, want):
         n, d = FnTr(self).num(e)
         if d != 1:
+            if want is None:
+                # python float division by a constant, carried exactly: the Lean value is the numerator over the denominator d
+                return Val(n, T("Frac", d))
             self.fail("fractional value without a rounding rule: " + ast.unparse(e), e)
         return Val(n, NUM)
 
@@ -1176,6 +1188,12 @@ class Fx:
                 if self.ret != NONE:
                     self.fail("bare return in a function returning %r" % self.ret, s)
                 self.emit_return(None)
+            elif self.spec.get("floor"):
+                # the function returns a float; the translation returns its floor (spec `floor`, as gen_lean's `floor` leaves)
+                if self.ret != NUM:
+                    self.fail("`floor` on a function that does not return a number", s)
+                n, d = FnTr(self).num(s.value)
+                self.emit_return(n if d == 1 else "(Int.fdiv %s %d)" % (n, d))
             else:
                 v = self.expr(s.value, self.ret)
                 self.emit_return(None if self.ret == NONE else v.text)
@@ -1577,7 +1595,7 @@ def translate_function(area, fn, spec, cls):
     info = FnInfo(lean, params, area.ty(spec["ret"]), has_self, cls)
     fx = Fx(area, info, fn, spec, cls)
     if has_self:
-        v = fx.declare("self", T("Class", cls), is_param=True)
+        v = fx.declare("self", area.self_ty(cls), is_param=True)
     for n, t in params:
         fx.declare(n, t, is_param=True)
     body = gen_lean.strip_doc(fn.body)
@@ -1590,7 +1608,7 @@ def translate_function(area, fn, spec, cls):
     pnames = (["self"] if has_self else []) + [n for n, _ in params]
     info.mutated = [p for p in pnames if p in info.mutated]
     rt_comps = ([] if info.ret == NONE else [area.lean_ty(info.ret)]) + \
-               [area.lean_ty(T("Class", cls)) if p == "self" else area.lean_ty(dict(params)[p]) for p in info.mutated]
+               [area.lean_ty(area.self_ty(cls)) if p == "self" else area.lean_ty(dict(params)[p]) for p in info.mutated]
     rty = "Unit" if not rt_comps else (rt_comps[0] if len(rt_comps) == 1 else "(" + " × ".join(rt_comps) + ")")
     out = []
     for ln in fx.lines:
@@ -1608,7 +1626,7 @@ def translate_function(area, fn, spec, cls):
     head = []
     for p in info.mutated:
         head.append("  let mut %s := %s" % (lean_local(p), lean_local(p)))
-    sig = "".join(" (%s : %s)" % (lean_local(n), area.lean_ty(T("Class", cls)) if n == "self" else area.lean_ty(dict(params)[n])) for n in pnames)
+    sig = "".join(" (%s : %s)" % (lean_local(n), area.lean_ty(area.self_ty(cls)) if n == "self" else area.lean_ty(dict(params)[n])) for n in pnames)
     sig += "".join(" (%s : %s)" % (lean_local(n), area.lean_ty(area.ty(t))) for n, t in spec.get("env", []))
     info.env = list(spec.get("env", []))
     low = " (lower : String → String)" if info.uses_lower else ""
@@ -1737,6 +1755,9 @@ def gen_area(repo, spec, common, cenv):
     lines += ["set_option linter.unusedVariables false", "namespace Zc.GenFn.%s" % spec.AREA, "open Zc Zc.Py", ""]
     for c in spec.CLASSES:
         cdef = cdefs[c["py"]]
+        if c.get("opaque"):
+            lines.append("/-! class `%s` (%s:%d): its objects are the model type `%s` -/\n" % (c["py"], rel, cdef.lineno, area.opaque[c["opaque"]]["lean"]))
+            continue
         lines.append("/-- class `%s` (%s:%d) -/" % (c["py"], rel, cdef.lineno))
         lines.append("structure %s where" % c["py"])
         for f, (lf, ft) in area.fields[c["py"]].items():
